@@ -254,6 +254,21 @@ theorem C05_t2_key_insufficient_inplace_upsert :
   ⟨{ t2Sample with indexVer := 2, index := 1020 }, { t2Sample with indexVer := 2, index := 1120 },
    by decide, by simp [IndexVersionFaithful], by decide⟩
 
+/-- A digest of the whole quality subtree is faithful … -/
+theorem C05_quality_digest_whole_faithful (q q' : QCfg) (h : digestAll q = digestAll q') : q = q' := h
+
+/-- … a digest that drops a leaf the quality ops read is not. -/
+theorem C05_quality_digest_dropping_leaf_not_faithful :
+    ∃ q q' : QCfg, digestDrop 7 q = digestDrop 7 q' ∧ q ≠ q' := ⟨qOf 0, qOf 1, by decide, by decide⟩
+
+/-- The same witness at the level of the T2 key: two requests at the same index version that differ only in
+`t2.quality.mmr.k` collide once the digest drops that leaf, while the stage result differs. -/
+theorem C05_t2_key_insufficient_digest_drops_leaf :
+    ∃ r r' : T2Raw, r.quality ≠ r'.quality ∧
+      r.quality.map (fun c => digestDrop 7 (qOf c)) = r'.quality.map (fun c => digestDrop 7 (qOf c)) ∧
+      { t2Key r with quality := none } = { t2Key r' with quality := none } ∧ t2Stage id r ≠ t2Stage id r' :=
+  ⟨{ t2Sample with quality := some 0 }, { t2Sample with quality := some 1 }, by decide, by decide, by decide, by decide⟩
+
 /-- Negation witness, dimension **label map** (a node label edited outside T1's reach). -/
 theorem C05_t2_key_insufficient_labelmap :
     ∃ r r' : T2Raw, t2Key r = t2Key r' ∧ t2Stage id r ≠ t2Stage id r' :=
